@@ -198,6 +198,11 @@ def run_cloud(case, ctx):
     ctx.check(np.array_equal(got_xyz[0], want32[0]), f"{which}/rooted-at-soma-or-first-point",
               lambda: f"root at {got_xyz[0].tolist()}, expected {want32[0].tolist()}")
     ctx.check(int(out.type()[0]) == 1, f"{which}/root-typed-soma", f"type {out.type()[0]}")
+    # the caller goes on using its buffer (fills it with the next cloud): the tree built from the old content keeps it
+    P[...] = (P[::-1] * 2 + 1).astype(P.dtype)
+    again = np.stack([out.x(), out.y(), out.z()], axis=1)
+    ctx.check(np.array_equal(again, got_xyz), f"{which}/tree-keeps-its-points-when-the-caller-reuses-the-buffer",
+              "the tree's coordinates changed when the input array was overwritten afterwards")
     # map result nodes to input indices through positions (distinct by construction)
     pos_to_idx = {tuple(p): i for i, p in enumerate(want32.tolist())}
     if len(pos_to_idx) != n:
